@@ -250,6 +250,12 @@ def kinds_part(ctx, sc):
     inputs.append(('ber', be.encode(sov, defMode=False), so, True))
     inputs.append(('cer', ce.encode(sov), so, False))
     inputs.append(('ber', b''.join(be.encode(univ.Integer(i)) for i in range(3500)), P.sc('int'), True))
+    # every alignment of element boundaries relative to the 8192-octet blocks of buffered readers
+    soo = {'k': 'seqof', 'tags': [], 'of': P.sc('octs')}
+    for shift in range(5):
+        v = U.build_value(soo, {'es': [{'o': [7] * shift}] + [{'o': [i % 251]} for i in range(6000 if not ctx.quick else 3000)]})
+        inputs.append(('ber', be.encode(v, defMode=False), soo, True))
+        inputs.append(('cer', ce.encode(v), soo, shift % 2 == 0))
     nest = {'k': 'seqof', 'tags': [], 'of': {'k': 'seqof', 'tags': [], 'of': P.sc('octs')}}
     nv = U.build_value(nest, {'es': [{'es': [{'o': [j % 256] * 900} for j in range(4)]} for i in range(4)]})
     inputs.append(('ber', be.encode(nv), nest, True))
